@@ -29,7 +29,10 @@ MANIFEST = {
              "No converter of the model can raise (never a traceback) for every well-formed table and every argv — full since the repair "
              "b1a5942 of the parse_tuple call counter (a heterogeneous-tuple option given twice raised IndexError; kept as a "
              "regression example, and the counter is proved to wrap: item k mod n); the only raising table is the ill-formed "
-             "closure over no item type (witness theorem), which simple-parsing never builds. "
+             "closure over no item type (witness theorem), which simple-parsing never builds: every table built for a flat "
+             "dataclass is proved well-formed (tableOf_noRaiseTbl), so c04_no_traceback_flat is unconditional; and the closure "
+             "counters stay multiples of the arity across any accepted command line (c04_counters_aligned: induction over the "
+             "consume loop), which is what makes the next parse on the same parser start every tuple at its first item type. "
              "The model is tied to the code by the end-to-end op fields.parse and, independently of simple-parsing, by "
              "engine.run against stdlib argparse; the property's clauses are evaluated on every real parse."),
     "note": ("Trusted: Lean kernel + standard axioms; harness. Modelled not verified: argparse 3.12.1 optional-argument "
